@@ -1029,8 +1029,8 @@ fn c14_type<T: Kt>(dir: &std::path::Path, max_len: usize, evals: &mut u64) -> Re
     let kt = T::ID;
     // 4 keys whose sort order differs from the order they are used in
     let keys: Vec<Vec<u8>> = match kt {
-        KtId::Bytes => vec![b"m".to_vec(), vec![0xFF, 0x01], b"".to_vec(), b"a\0".to_vec()],
-        KtId::Str => vec![b"mango".to_vec(), b"zebra".to_vec(), b"apple".to_vec(), "é".as_bytes().to_vec()],
+        KtId::Bytes => vec![b"m".to_vec(), vec![0xFF, 0x01], b"".to_vec(), b"m\0".to_vec()],
+        KtId::Str => vec![b"mango".to_vec(), b"zebra".to_vec(), b"man".to_vec(), "é".as_bytes().to_vec()],
         _ => [300u64, 2, 70000, 1].iter().map(|x| crate::alphabet::int_key(kt, *x)).collect(),
     };
     // values: valid UTF-8 and invalid UTF-8
